@@ -350,7 +350,7 @@ def C03_example : List Op :=
    .stack 0 (0, 0) none, .stack 0 (0, 1) (some (0, 0)), .stackFrames 0 [(0, 0), (0, 1), (0, 2), (0, 3)],
    .stack 1 (0, 0) none,
    .sample 0 (some (0, 1)) false, .sameSample 0, .allocSample 0 (some (0, 1)), .allocSample 1 none,
-   .markerType "rt0" 1 [.u, .n, .s], .marker 0 (.runtime 0) 0 [1, 0], .marker 2 (.static 1) 1 [0, 1, 0],
+   .markerType "rt0" 1 [.u, .n, .s], .marker 0 (.runtime 0) 0 [1, 0] .interval, .marker 2 (.static 1) 1 [0, 1, 0] .intervalEnd,
    .markerStack 0 0 (some (0, 3)),
    .counter 1, .visible 2, .selected 1, .setTid 1 1]
 
